@@ -247,7 +247,7 @@ def _subst(e, env):
 
 def _valid(hyps, goal):
     s = z3.Solver()
-    s.set("timeout", 5000)
+    s.set("rlimit", 20000000)        # a resource limit, not a time limit: the answer does not depend on machine load
     s.add(*hyps)
     s.add(z3.Not(goal))
     r = s.check()
